@@ -50,6 +50,27 @@ class Obj:
         return '<%s %s>' % (self.kind, self.name)
 
 
+class Bit:
+    """a boolean value as an expression over bits read from memory (used for std::vector<bool> contents):
+    ('c', 0|1) | ('r', region, offset Lin, epoch) | ('not', e) | ('and'|'or'|'xor', e1, e2);  epoch = length of the
+    write log at the time of the read"""
+    __slots__ = ('e',)
+
+    def __init__(self, e):
+        self.e = e
+
+    def __repr__(self):
+        return 'bit%r' % (self.e,)
+
+    @staticmethod
+    def of(v):
+        if isinstance(v, Bit):
+            return v
+        if isinstance(v, Lin) and v.is_const() and v.c in (0, 1):
+            return Bit(('c', int(v.c)))
+        return None
+
+
 class Unknown:
     def __repr__(self):
         return '?'
@@ -156,7 +177,7 @@ class Engine:
         """entry: ('copy', dst Ptr, src Ptr, n) | ('fill', dst Ptr, value, n) | ('put', dst Ptr, value) |
         ('opaque', dst Ptr, n, tag) | ('unknown', region).  Writes made inside a loop body (analysed once for an
         arbitrary iteration) do not describe the final content: the whole region becomes unknown."""
-        if not self.cfg.get('track_content'):
+        if not self.cfg.get('track_content') or self.cfg.get('suppress_log'):
             return
         dst = entry[1]
         if self.loop_depth > 0 and not self.cfg.get('content_invariant_loops'):
@@ -749,6 +770,8 @@ class Engine:
                 res.append((self.arith(s1, '-', lin(0), v, t, n, func), s1))
             elif op == '+':
                 res.append((v, s1))
+            elif op == '!' and isinstance(v, Bit):
+                res.append((Bit(('not', v.e)), s1))
             elif op == '!':
                 res.append((self.fresh('not', s1, 'bool'), s1))
             elif op == '~' and isinstance(v, Lin) and v.is_const():
@@ -792,6 +815,11 @@ class Engine:
         res = []
         for x, s1 in self.ev(a, st, func):
             for y, s2 in self.ev(b, s1, func):
+                if op in ('&', '|', '^') and (isinstance(x, Bit) or isinstance(y, Bit)):
+                    bx, by = Bit.of(x), Bit.of(y)
+                    if bx is not None and by is not None:
+                        res.append((Bit(({'&': 'and', '|': 'or', '^': 'xor'}[op], bx.e, by.e)), s2))
+                        continue
                 if op == '*' and ((isinstance(x, tuple) and x[0] == 'float_of') or
                                   (isinstance(y, tuple) and y[0] == 'float')):
                     xi = x[1] if isinstance(x, tuple) and x[0] == 'float_of' else x
@@ -854,6 +882,13 @@ class Engine:
                 continue
             if isinstance(v, Lin):
                 res.extend(self.compare('!=', v, lin(0), s1, n, func))
+            elif isinstance(v, Bit):
+                a, b = s1, s1.copy()
+                a.ghost.append(('bitfact', v.e, True))
+                b.ghost.append(('bitfact', v.e, False))
+                a.trail.append('%r is set' % (v,))
+                b.trail.append('%r is clear' % (v,))
+                res.extend([(True, a), (False, b)])
             elif isinstance(v, Ptr):
                 res.append((True, s1))
             else:
@@ -989,12 +1024,15 @@ class Engine:
             m = self.find_model(base)
             if m is not None:
                 return m
-        for pat, fn in self.models.items():
-            if pat.endswith('*'):
-                if callee.startswith(pat[:-1]):
+        # models of the configuration take precedence over the default ones
+        own = self.cfg.get('models', {})
+        for table in (own, self.models):
+            for pat, fn in table.items():
+                if pat.endswith('*'):
+                    if callee.startswith(pat[:-1]):
+                        return fn
+                elif callee == pat or callee.endswith('::' + pat):
                     return fn
-            elif callee == pat or callee.endswith('::' + pat):
-                return fn
         return None
 
     def call(self, n, st, func, want=None):
@@ -1051,6 +1089,8 @@ class Engine:
         for r, size in list(st.regions.items()):
             if ren(r):
                 st.regions[ren(r)] = size
+                # the copy starts with the content of the original
+                self.log_write(st, ('copy', Ptr(ren(r), 0), Ptr(r, 0), size))
         for r, z in list(st.nul.items()):
             if ren(r):
                 st.nul[ren(r)] = list(z)
@@ -1577,8 +1617,22 @@ class Engine:
         return False
 
     def loop_(self, n, states, func):
+        hook = self.cfg.get('loop_summary')
+        if hook is not None and self.loop_depth == 1:
+            # a loop whose complete effect on memory can be stated as one log entry ('map'): the entry is added
+            # by the hook, the writes of the generic analysis of the body are not logged again
+            if hook(self, n, states, func):
+                old = self.cfg.get('suppress_log')
+                self.cfg['suppress_log'] = True
+                try:
+                    return self.loop__(n, states, func)
+                finally:
+                    self.cfg['suppress_log'] = old
+        return self.loop__(n, states, func)
+
+    def loop__(self, n, states, func):
         if self.cfg.get('track_content') and not self.cfg.get('content_invariant_loops') and \
-                self.loop_writes_memory(n):
+                not self.cfg.get('suppress_log') and self.loop_writes_memory(n):
             # the body is analysed for one arbitrary iteration only: the final content of whatever it
             # writes is not described by the log
             for s0 in states:
